@@ -148,10 +148,17 @@ impl Store {
         }
     }
 
-    /// Everything below the simulated cwd.
+    /// The whole simulated file system (paths below the simulated cwd are relative to it,
+    /// the few outside of it absolute).
     pub fn snapshot(&self) -> Snapshot {
         match self {
-            Store::Sim(fs) => fs.snapshot("."),
+            Store::Sim(fs) => {
+                let mut all = fs.snapshot_all();
+                // the ancestors of the cwd are scaffolding, not content
+                all.retain(|p, c| c.is_some() || !crate::simfs::SIM_CWD.starts_with(p.as_str()));
+                all.remove(".");
+                all
+            }
             Store::Mem(resources) => {
                 let mut out = Snapshot::new();
                 for path in resources.walk("") {
